@@ -90,6 +90,22 @@ func checkC03(c *core.Ctx, l *core.Ledger) {
 			}
 		}
 		if !has {
+			// the same dispatch written as an if/else chain: a wire.Type value compared with three or more type codes
+			codes := map[string]bool{}
+			core.Instrs(f, func(in ssa.Instruction) {
+				bo, ok := in.(*ssa.BinOp)
+				if !ok || (bo.Op != token.EQL && bo.Op != token.NEQ) || !types.Identical(bo.X.Type(), wireT) {
+					return
+				}
+				if k, isK := bo.Y.(*ssa.Const); isK && k.Value != nil {
+					codes[k.Value.ExactString()] = true
+				} else if k, isK := bo.X.(*ssa.Const); isK && k.Value != nil {
+					codes[k.Value.ExactString()] = true
+				}
+			})
+			has = len(codes) >= 3
+		}
+		if !has {
 			continue
 		}
 		name := core.DeclName(fd)
@@ -462,7 +478,22 @@ func countedLoop(body map[*ssa.BasicBlock]bool) (string, bool) {
 		}
 		iv, bound := cmp.X, cmp.Y
 		if in, ok := bound.(ssa.Instruction); ok && body[in.Block()] {
-			continue // bound not loop invariant
+			// len(x) re-evaluated in the loop head is invariant when x itself is a value from outside the loop
+			// (an SSA value cannot change; a slice variable the body assigns would be a phi or a load inside the body)
+			invariant := false
+			if call, isCall := bound.(*ssa.Call); isCall {
+				if bi, isB := call.Call.Value.(*ssa.Builtin); isB && bi.Name() == "len" && len(call.Call.Args) == 1 {
+					switch a := call.Call.Args[0].(type) {
+					case *ssa.Parameter, *ssa.Const:
+						invariant = true
+					case ssa.Instruction:
+						invariant = !body[a.Block()]
+					}
+				}
+			}
+			if !invariant {
+				continue // bound not loop invariant
+			}
 		}
 		if isInduction(iv, body) {
 			return "induction variable < " + core.Sym(bound), true
